@@ -19,6 +19,7 @@ BYTES = ('bytes',)
 STR = ('str',)
 ANY = ('any',)
 CALLABLE = ('callable',)
+BITS = ('bits',)     # a non-negative python int used as a bit set: index -> bool
 
 
 def Ref(cls=None):
@@ -67,7 +68,7 @@ _sort_cache = {}
 
 def tyname(ty):
     k = ty[0]
-    if k in ('int', 'bool', 'real', 'none', 'bytes', 'str', 'any', 'callable'):
+    if k in ('int', 'bool', 'real', 'none', 'bytes', 'str', 'any', 'callable', 'bits'):
         return k
     if k == 'ref':
         return 'ref'
@@ -90,6 +91,8 @@ def sort_of(ty):
         return I
     if k == 'bool':
         return Bo
+    if k == 'bits':
+        return z3.ArraySort(I, Bo)
     if k == 'real':
         return R
     if k == 'bytes':
@@ -200,6 +203,27 @@ class VStr(Val):
 
     def __repr__(self):
         return 'VStr(%s)' % (self.lit if self.lit is not None else self.t)
+
+
+class VBits(Val):
+    """a non-negative int viewed as the set of its one-bits (finite support is an invariant stated in contracts)"""
+    ty = ('bits',)
+
+    def __init__(self, at=None, term=None):
+        self._at = at
+        self._term = term
+
+    def at(self, i):
+        if self._at is not None:
+            return self._at(i)
+        return z3.Select(self._term, i)
+
+    @property
+    def t(self):
+        if self._term is None:
+            i = z3.Int(fresh_name('bt'))
+            self._term = z3.Lambda([i], self._at(i))
+        return self._term
 
 
 class VRaw(Val):
@@ -419,6 +443,8 @@ def from_term(ty, t):
         return VBool(t)
     if k == 'real':
         return VReal(t)
+    if k == 'bits':
+        return VBits(term=t)
     if k == 'none':
         return VNone()
     if k == 'bytes':
@@ -469,6 +495,16 @@ def coerce(v, ty):
             raise Unsupported('opt coercion %s -> %s' % (v.ty, ty))
         inner = coerce(v, ty[1])
         return VOpt(ty[1], s.constructor(1)(to_term(inner)))
+    if k == 'bits' and isinstance(v, VInt):
+        sb = getattr(v, 'single_bit', None)
+        if sb is not None:
+            return VBits(at=lambda i, sb=sb: i == sb)
+        c = z3.simplify(v.t)
+        if z3.is_int_value(c) and c.as_long() >= 0:
+            n = c.as_long()
+            ones = [b for b in range(n.bit_length()) if (n >> b) & 1]
+            return VBits(at=lambda i, ones=ones: z3.Or(*[i == b for b in ones]) if ones else z3.BoolVal(False))
+        raise Unsupported('cannot view a symbolic int as a bit set')
     if k == 'ref' and v.ty[0] == 'ref':
         return VRef(v.t, ty[1] or v.ty[1])
     if k == 'int' and v.ty[0] in ('enum', 'int'):
